@@ -245,8 +245,7 @@ Eval vm_compute in mismatches ok fcases.
 
     chk.assumptions += [
         "numba compiles the Python source it is given (kernels are re-JITted into a cache keyed by the hash of /repo's sources)",
-        "the iterative separator walk of `partitions` equals the recursive specification `sector` for the (d,c) enumerated here (model basis_iter = basis is evaluated by vm_compute on every case; the refinement for all d is not yet a theorem)",
-        "fermionic: the theorems are about the recursive order f_basis_spec and the rank formula; that the iterative successor next_first_quantized walks that order is evaluated (model f_basis = f_basis_spec and = implementation) for d<=%d, not proved for all d" % fmax,
+        "fermionic: the theorems are about the recursive order f_basis_spec and the rank formula; that the iterative successor next_first_quantized walks that order within a sector is Props/C17.v:C17_walk_is_sector; across sector boundaries it is evaluated (model f_basis = f_basis_spec and = implementation) for d<=%d" % fmax,
     ]
     chk.finish(
         rule="bosonic: every (d,c) of the tier's range (non-trivial: d>=2 and c>=3); random vectors: distinct vectors with total>=2; fermionic: every basis vector (non-trivial: >=2 particles)",
